@@ -6,11 +6,13 @@ From TP Require Import Model.Prelude Extracted Model.Toxics Model.Timed Proofs.S
 Theorem C10_blackhole : forall t fuel arr ps s,
   wf (TTimeout t) s -> fst (fst (feed (TTimeout t) fuel ps s arr)) = [].
 Proof. exact timeout_blackhole. Qed.
+Print Assumptions C10_blackhole.
 
 (** the timer is armed once, when the toxic takes effect on the connection (extracted from the
     source: [timeout_rearms] says whether time.After sits inside the loop) ... *)
 Theorem C10_armed_once : timeout_rearms = false.
 Proof. reflexivity. Qed.
+Print Assumptions C10_armed_once.
 
 (** ... so for T > 0 the deadline start + T survives any amount of traffic: the stub closes at
     start + T, no earlier (C08_not_early applies to every timer) and no later *)
@@ -19,12 +21,15 @@ Theorem C10_closes_at_T : forall t fuel start arr ps,
   feed (TTimeout t) fuel ps (init_state (TTimeout t) ps start) arr =
   ([], Idle 0 (Some (start + timeout_ns t)), ps).
 Proof. exact (timeout_deadline_fixed C10_armed_once). Qed.
+Print Assumptions C10_closes_at_T.
 
 Theorem C10_timer_closes : forall t now acc dl, on_timer (TTimeout t) now (Idle acc (Some dl)) = Closing.
 Proof. exact timeout_fires. Qed.
+Print Assumptions C10_timer_closes.
 
 Theorem C10_unit_is_ms : forall t, ms_ok t -> timeout_ns t = t * 1000000.
 Proof. exact ms_ns. Qed.
+Print Assumptions C10_unit_is_ms.
 
 (** T = 0: no timer exists; the connection is held open until the sender closes *)
 Theorem C10_T0_holds : forall t fuel start arr ps,
@@ -32,6 +37,7 @@ Theorem C10_T0_holds : forall t fuel start arr ps,
   feed (TTimeout t) fuel ps (init_state (TTimeout t) ps start) arr = ([], Idle 0 None, ps) /\
   stub_deadline (mkStub (TTimeout t) true (Idle 0 None) ps [] 0 false false) = None.
 Proof. exact timeout_zero_never_closes. Qed.
+Print Assumptions C10_T0_holds.
 
 (** regression witness for the re-arming variant (finding F2, repaired in /repo): T = 100 ms and a
     chunk every 60 ms move the deadline to 280 ms after three chunks *)
@@ -39,6 +45,7 @@ Theorem C10_rearm_refuted :
   let arm now := Some (now + 100000000) in
   fold_left (fun (_ : option Z) now => arm now) [60000000; 120000000; 180000000] (arm 0) = Some 280000000.
 Proof. reflexivity. Qed.
+Print Assumptions C10_rearm_refuted.
 
 (** ---- removal. RemoveToxic on a timeout toxic interrupts its stage and runs Cleanup, which
     closes the stub ([CInterrupt i] then [CSever i] of Model/Reconf.v; that Cleanup runs before any
@@ -59,6 +66,7 @@ Theorem C10_removal_closes : forall l i s acc tmr,
     end /\
     (forall sigma l3, sched_run l2 sigma = Some l3 -> wall l3 i).
 Proof. exact timeout_removal. Qed.
+Print Assumptions C10_removal_closes.
 
 (** ... and a dead stub never acts again: neither its send, its timers, nor a flush, restart,
     splice or second removal aimed at it is enabled. Since the hand-offs to position i+1 are
@@ -68,12 +76,14 @@ Proof. exact timeout_removal. Qed.
 Theorem C10_wall_is_silent : forall l i, wall l i ->
   sched_step l (AMove i) = None /\ sched_step l (ATimer i) = None /\ sched_step l (ASendTimeout i) = None.
 Proof. exact wall_silent_data. Qed.
+Print Assumptions C10_wall_is_silent.
 
 Theorem C10_wall_is_silent_ctl : forall l i, wall l i ->
   ctl_step l (CInterrupt i) = None /\ (forall tx eff, ctl_step l (CRestart i tx eff) = None) /\
   ctl_step l (CForward i) = None /\ ctl_step l (CForwardDrop i) = None /\
   ctl_step l (CDelete i) = None /\ ctl_step l (CSever i) = None.
 Proof. exact wall_silent_ctl. Qed.
+Print Assumptions C10_wall_is_silent_ctl.
 
 (** permanence under later reconfiguration as well (a splice upstream shifts the index) *)
 Theorem C10_wall_stays_under_reconfiguration : forall l a l' i, ctl_step l a = Some l' -> wall l i ->
@@ -82,11 +92,13 @@ Theorem C10_wall_stays_under_reconfiguration : forall l a l' i, ctl_step l a = S
   | _ => wall l' i
   end.
 Proof. exact wall_ctl. Qed.
+Print Assumptions C10_wall_stays_under_reconfiguration.
 
 (** the timeout stage is interruptible in every live state (it never sits in a send) *)
 Theorem C10_interruptible : forall now acc tmr,
   mode_of (Idle acc tmr) = MSelect true true tmr /\ on_interrupt now (Idle acc tmr) = Exited.
 Proof. intros. split; reflexivity. Qed.
+Print Assumptions C10_interruptible.
 
 (** regenerated from link.go on every run: in RemoveToxic the Cleanup call, and the return taken
     when it closed the stub, come before the first WriteOutput and before the goroutine that
@@ -94,6 +106,7 @@ Proof. intros. split; reflexivity. Qed.
     in between *)
 Theorem C10_cleanup_before_flush : remove_cleanup_before_flush = true.
 Proof. reflexivity. Qed.
+Print Assumptions C10_cleanup_before_flush.
 
 (** the usual position: the timeout toxic is the last of its chain (AddToxic appends). Then after
     its removal the receiver is closed and gets NOTHING more - whatever is parked in earlier stages
@@ -107,6 +120,7 @@ Theorem C10_removed_last_timeout_delivers_nothing : forall l i s acc tmr,
     l_sink_closed l2 <> None /\
     forall sigma l3, sched_run l2 sigma = Some l3 -> sink_bytes l3 = sink_bytes l.
 Proof. exact removed_last_timeout_delivers_nothing. Qed.
+Print Assumptions C10_removed_last_timeout_delivers_nothing.
 
 (** who writes to the receiver at all *)
 Theorem C10_only_the_last_stub_writes : forall l a l',
@@ -114,6 +128,7 @@ Theorem C10_only_the_last_stub_writes : forall l a l',
   sink_bytes l' = sink_bytes l \/
   (exists j, a = AMove j /\ S j = length (l_stubs l)) \/ (a = AReader /\ l_stubs l = []).
 Proof. exact sink_writer. Qed.
+Print Assumptions C10_only_the_last_stub_writes.
 
 (** any position of the removed toxic: what the receiver ever gets after the removal is made of what
     was already delivered or inside the stages BELOW the dead stub at that moment - nothing that
@@ -127,9 +142,11 @@ Theorem C10_nothing_crosses_a_dead_stub : forall sigma l l' i,
   sched_run l sigma = Some l' ->
   sink_bytes l' ++ flow (skipn (S i) (l_stubs l')) = sink_bytes l ++ flow (skipn (S i) (l_stubs l)) /\ wall l' i.
 Proof. exact nothing_crosses_a_wall. Qed.
+Print Assumptions C10_nothing_crosses_a_dead_stub.
 
 Theorem C10_cut : forall k l a l',
   (k <= length (l_stubs l))%nat -> Forall stub_ok (skipn k (l_stubs l)) ->
   sched_step l a = Some l' -> ~ crosses k a ->
   below k l' = below k l /\ Forall stub_ok (skipn k (l_stubs l')) /\ length (l_stubs l') = length (l_stubs l).
 Proof. exact cut_step. Qed.
+Print Assumptions C10_cut.
